@@ -35,11 +35,40 @@ End Scan.
 
 Definition find_fuel (src : bytes) (offset : Z) : nat := Z.to_nat (len src - offset) + 2.
 
+(* checkBackRefs: state = (captures seen so far, numbers of the captures still open);
+   None = panic(pm.Error "invalid capture index"): a %N between the parentheses of capture N *)
+Fixpoint br_pat (p : pat) (st : Z * list Z) : option (Z * list Z) :=
+  match p with
+  | PPosCap => Some (fst st + 1, snd st)
+  | PCap l =>
+      let n := fst st + 1 in
+      match (fix seq (l : list pat) (st : Z * list Z) : option (Z * list Z) :=
+               match l with
+               | [] => Some st
+               | x :: r => match br_pat x st with Some st' => seq r st' | None => None end
+               end) l (n, snd st ++ [n]) with
+      | Some (n', _) => Some (n', snd st)
+      | None => None
+      end
+  | PNumber k => if existsb (Z.eqb k) (snd st) then None else Some st
+  | _ => Some st
+  end.
+
+Fixpoint br_seq (l : list pat) (st : Z * list Z) : option (Z * list Z) :=
+  match l with
+  | [] => Some st
+  | x :: r => match br_pat x st with Some st' => br_seq r st' | None => None end
+  end.
+
+Definition backrefs_ok (sp : seqpat) : bool :=
+  match br_seq (patterns sp) (0, []) with Some _ => true | None => false end.
+
 Definition goFind (p src : bytes) (offset limit : Z) : fres :=
   match goParse p with
   | ParseErr => FErr
   | ParseFuel => FFuel
   | ParseOk sp =>
+      if negb (backrefs_ok sp) then FErr else
       let insts := goCompile sp in
       find_loop (fun s => goVM src insts (vm_fuel src insts) 0 s) (len src) (must_head sp) limit
                 (find_fuel src offset) offset []
